@@ -1,37 +1,43 @@
 (* C09 -- HTTP stream reassembly is invariant to segmentation, sequence origin and order.
-   Property theorems only; proofs live in Proofs/StreamProofs.v, Proofs/StreamRefute.v.
+   Property theorems only; proofs live in Proofs/StreamProofs.v, StreamReorder.v, StreamOoo.v,
+   StreamSpecProps.v, StreamRefute.v, RecogProofs.v.
 
    FULL STATEMENT (property text): for every trace of a SYN-opened connection whose client bytes
    start with a request head and whose server bytes start with a response head,
        outs (map wire tr) = spec_outs tr
    for EVERY partition, EVERY ISN (incl. wrapping ones) and EVERY arrival order.
-   The unchanged code does not satisfy it: see the four *_refuted lemmas (genuine, unrepaired
-   defects).  What is proved is the statement restricted to the complement of those classes:
+   The unchanged code does not satisfy it: see the four *_refuted theorems (genuine, unrepaired
+   defects).  What is proved is the statement on the complement of those four classes:
 
-   C09_inorder   known tr = false -> model = SPEC, for ALL head parsers (subject to "a head has at
-                 least 4 bytes"), all partitions, all ISNs that do not wrap before the head is
-                 reported, any number of interleaved connections up to the cache capacity, any
-                 interleaving of the two directions, anything at all after a head was reported.
-                 `known tr = false` says: until a direction's head is reported its data segments
-                 arrive in order (no hole, no byte received twice), with sequence numbers above the
-                 ISN, and no client data segment carries FIN/RST before both heads are reported.
-   C09_once      under the same hypotheses each connection's request and response are reported at
-                 most once, and only on a packet of the direction that sent them (proved of the
-                 SPEC for every trace: C09_spec_once, C09_spec_direction).
-   C09_rebuild_order_invariant / C09_rebuild_any_order   (out-of-order arrival) what the model
-                 rebuilds does not depend on the arrival order of the stored segments when their
-                 sequence numbers are distinct; once ALL segments of a gap-free, non-overlapping,
-                 non-wrapping stream are stored, in ANY order, the rebuilt stream is the in-order one.
-   MISSING for the full C09_partial of DESIGN.md: a trace-level model = SPEC theorem for
-   out-of-order arrivals whose stored set is gap-free or unparsable at every step (needs
-   prefix-stability of the parser and an argument about sorted non-contiguous sets: while a hole is
-   open the model parses prefix ++ later segments, the SPEC only the prefix).  `known_gap` /
-   `known_dup` are therefore broader than the defect itself: they flag every out-of-order or
-   overlapping arrival before the report, harmful or not.  *)
+   C09_reordered  known tr = false -> model = SPEC, for all head parsers that are prefix-stable
+                 (a head stays the same head when bytes follow it) and accept nothing shorter than
+                 4 bytes; all partitions, ALL ARRIVAL ORDERS, any number of interleaved connections
+                 up to the cache capacity, any interleaving of the two directions, anything at all
+                 after a head was reported.  `known tr = false` (Spec/StreamSpec.v) says, for each
+                 direction until its head is reported: every data segment has a sequence number
+                 above the ISN (wrap), carries no byte already received (dup), and after its
+                 arrival EITHER no hole is open OR the received bytes concatenated across the hole
+                 are not accepted by the head parser (gap); and no client data segment carries
+                 FIN/RST before both heads are reported (fin).  Decidable on the trace and parser.
+   C09_reordered_http1  the same for the HTTP/1 recogniser of Model/HttpRecog.v with NO hypothesis
+                 on the parser left: prefix stability is proved for it (RecogProofs.v
+                 recog_req_stable / recog_resp_stable).
+   C09_inorder   the earlier, parser-agnostic theorem: under the STRICT classes (every arrival that
+                 is not the next in-order segment is flagged: known_strict) model = SPEC for ALL
+                 parsers with the 4-byte minimum only, no stability needed.
+   C09_once / C09_once_reordered   at most once per connection and only on a packet of the sending
+                 direction (of the SPEC for every trace: C09_spec_once, C09_spec_direction).
+   C09_rebuild_order_invariant / C09_rebuild_any_order   what the model rebuilds does not depend
+                 on arrival order when sequence numbers are distinct.
+   STILL PARTIAL: the four known classes are genuine defects and stay excluded (witnesses below);
+   for parsers other than the HTTP/1 recogniser prefix stability is a hypothesis (for the real
+   HTTP/1 parser it is the content of C05, for HTTP/2 it is not established and HTTP/2 traffic is
+   not generated); sequence numbers of one direction must not wrap before its head is reported. *)
 From Coq Require Import List NArith Bool.
 From Coq Require Import Strings.Byte.
 From HN Require Import Base.Bytes Base.Cache Base.Tcp Model.HttpFlow Model.HttpRecog Spec.StreamSpec
-  Proofs.StreamProofs Proofs.StreamRefute Proofs.RecogProofs Proofs.StreamOoo Proofs.StreamSpecProps.
+  Proofs.StreamProofs Proofs.StreamRefute Proofs.RecogProofs Proofs.StreamOoo Proofs.StreamSpecProps
+  Proofs.StreamReorder.
 From Coq Require Import Permutation.
 Import ListNotations.
 Open Scope N_scope.
@@ -43,7 +49,7 @@ Theorem C09_inorder :
     forall (cap : N) (tr : list event),
       (forall e, In e tr -> e_seq e < two32) ->
       spec_wf parse_req parse_resp tr = true ->
-      known parse_req parse_resp tr = false ->
+      known_strict parse_req parse_resp tr = false ->
       spec_conn_count parse_req parse_resp tr <= cap ->
       outs parse_req parse_resp cap (map wire tr) = spec_outs parse_req parse_resp tr.
 Proof. intros Req Resp pq pr Hq Hr cap tr. exact (inorder_model_spec pq pr Hq Hr cap tr). Qed.
@@ -54,7 +60,7 @@ Check C09_inorder :
     forall (cap : N) (tr : list event),
       (forall e, In e tr -> e_seq e < two32) ->
       spec_wf parse_req parse_resp tr = true ->
-      known parse_req parse_resp tr = false ->
+      known_strict parse_req parse_resp tr = false ->
       spec_conn_count parse_req parse_resp tr <= cap ->
       outs parse_req parse_resp cap (map wire tr) = spec_outs parse_req parse_resp tr.
 Print Assumptions C09_inorder.
@@ -64,7 +70,7 @@ Theorem C09_inorder_http1 :
   forall (cap : N) (tr : list event),
     (forall e, In e tr -> e_seq e < two32) ->
     spec_wf recog_req recog_resp tr = true ->
-    known recog_req recog_resp tr = false ->
+    known_strict recog_req recog_resp tr = false ->
     spec_conn_count recog_req recog_resp tr <= cap ->
     outs recog_req recog_resp cap (map wire tr) = spec_outs recog_req recog_resp tr.
 Proof. exact (inorder_model_spec recog_req recog_resp recog_req_min recog_resp_min). Qed.
@@ -72,10 +78,119 @@ Check C09_inorder_http1 :
   forall (cap : N) (tr : list event),
     (forall e, In e tr -> e_seq e < two32) ->
     spec_wf recog_req recog_resp tr = true ->
-    known recog_req recog_resp tr = false ->
+    known_strict recog_req recog_resp tr = false ->
     spec_conn_count recog_req recog_resp tr <= cap ->
     outs recog_req recog_resp cap (map wire tr) = spec_outs recog_req recog_resp tr.
 Print Assumptions C09_inorder_http1.
+
+(* ---- benign reordering: model = SPEC on the complement of the known-defect classes ---- *)
+Theorem C09_reordered :
+  forall (Req Resp : Type) (parse_req : bytes -> option Req) (parse_resp : bytes -> option Resp),
+    (forall d r, parse_req d = Some r -> 4 <= len_N d) ->
+    (forall d r, parse_resp d = Some r -> 4 <= len_N d) ->
+    (forall d e r, parse_req d = Some r -> parse_req (d ++ e) = Some r) ->
+    (forall d e r, parse_resp d = Some r -> parse_resp (d ++ e) = Some r) ->
+    forall (cap : N) (tr : list event),
+      (forall e, In e tr -> e_seq e < two32) ->
+      spec_wf parse_req parse_resp tr = true ->
+      known parse_req parse_resp tr = false ->
+      spec_conn_count parse_req parse_resp tr <= cap ->
+      outs parse_req parse_resp cap (map wire tr) = spec_outs parse_req parse_resp tr.
+Proof. intros Req Resp pq pr Hq Hr Sq Sr cap tr. exact (reordered_model_spec pq pr Hq Hr Sq Sr cap tr). Qed.
+Check C09_reordered :
+  forall (Req Resp : Type) (parse_req : bytes -> option Req) (parse_resp : bytes -> option Resp),
+    (forall d r, parse_req d = Some r -> 4 <= len_N d) ->
+    (forall d r, parse_resp d = Some r -> 4 <= len_N d) ->
+    (forall d e r, parse_req d = Some r -> parse_req (d ++ e) = Some r) ->
+    (forall d e r, parse_resp d = Some r -> parse_resp (d ++ e) = Some r) ->
+    forall (cap : N) (tr : list event),
+      (forall e, In e tr -> e_seq e < two32) ->
+      spec_wf parse_req parse_resp tr = true ->
+      known parse_req parse_resp tr = false ->
+      spec_conn_count parse_req parse_resp tr <= cap ->
+      outs parse_req parse_resp cap (map wire tr) = spec_outs parse_req parse_resp tr.
+Print Assumptions C09_reordered.
+
+(* the instance the correspondence run executes: no hypothesis on the parser is left *)
+Theorem C09_reordered_http1 :
+  forall (cap : N) (tr : list event),
+    (forall e, In e tr -> e_seq e < two32) ->
+    spec_wf recog_req recog_resp tr = true ->
+    known recog_req recog_resp tr = false ->
+    spec_conn_count recog_req recog_resp tr <= cap ->
+    outs recog_req recog_resp cap (map wire tr) = spec_outs recog_req recog_resp tr.
+Proof.
+  exact (reordered_model_spec recog_req recog_resp recog_req_min recog_resp_min recog_req_stable recog_resp_stable).
+Qed.
+Check C09_reordered_http1 :
+  forall (cap : N) (tr : list event),
+    (forall e, In e tr -> e_seq e < two32) ->
+    spec_wf recog_req recog_resp tr = true ->
+    known recog_req recog_resp tr = false ->
+    spec_conn_count recog_req recog_resp tr <= cap ->
+    outs recog_req recog_resp cap (map wire tr) = spec_outs recog_req recog_resp tr.
+Print Assumptions C09_reordered_http1.
+
+(* prefix stability of the HTTP/1 recogniser, the only thing C09_reordered asks of a parser *)
+Theorem C09_http1_prefix_stable :
+  (forall d e r, recog_req d = Some r -> recog_req (d ++ e) = Some r) /\
+  (forall d e r, recog_resp d = Some r -> recog_resp (d ++ e) = Some r).
+Proof. split; [exact recog_req_stable | exact recog_resp_stable]. Qed.
+Check C09_http1_prefix_stable :
+  (forall d e r, recog_req d = Some r -> recog_req (d ++ e) = Some r) /\
+  (forall d e r, recog_resp d = Some r -> recog_resp (d ++ e) = Some r).
+Print Assumptions C09_http1_prefix_stable.
+
+Theorem C09_once_reordered :
+  forall (cap : N) (tr : list event) (id : N),
+    (forall e, In e tr -> e_seq e < two32) ->
+    spec_wf recog_req recog_resp tr = true ->
+    known recog_req recog_resp tr = false ->
+    spec_conn_count recog_req recog_resp tr <= cap ->
+    (count_of is_req id tr (outs recog_req recog_resp cap (map wire tr)) <= 1)%nat /\
+    (count_of is_resp id tr (outs recog_req recog_resp cap (map wire tr)) <= 1)%nat /\
+    Forall2 dir_ok tr (outs recog_req recog_resp cap (map wire tr)).
+Proof.
+  intros cap tr id H1 H2 H3 H4.
+  rewrite (reordered_model_spec recog_req recog_resp recog_req_min recog_resp_min recog_req_stable recog_resp_stable cap tr H1 H2 H3 H4).
+  destruct (spec_at_most_once recog_req recog_resp tr id) as [A B]. repeat split; auto.
+  exact (spec_direction recog_req recog_resp tr []).
+Qed.
+Check C09_once_reordered :
+  forall (cap : N) (tr : list event) (id : N),
+    (forall e, In e tr -> e_seq e < two32) ->
+    spec_wf recog_req recog_resp tr = true ->
+    known recog_req recog_resp tr = false ->
+    spec_conn_count recog_req recog_resp tr <= cap ->
+    (count_of is_req id tr (outs recog_req recog_resp cap (map wire tr)) <= 1)%nat /\
+    (count_of is_resp id tr (outs recog_req recog_resp cap (map wire tr)) <= 1)%nat /\
+    Forall2 dir_ok tr (outs recog_req recog_resp cap (map wire tr)).
+Print Assumptions C09_once_reordered.
+
+(* the hypotheses of C09_reordered are satisfiable on a genuinely reordered input: the request's
+   three segments arrive in the order 3, 2, 1 (a hole is open after the first and second arrival, the
+   squeezed bytes do not parse), the response's two segments in the order 2, 1; the strict classes
+   flag this trace, the known-defect classes do not, and both heads are reported *)
+Definition reorder_trace : list event :=
+  [ ev 1 true true false 4294967000 [];
+    ev 1 false true false 5000 [];
+    ev 1 true false false 4294967028 (bs "Accept: b" ++ crlfcrlf);
+    ev 1 false false false 5018 (bs "Server: x" ++ crlfcrlf);
+    ev 1 true false false 4294967017 (bs "Host: a" ++ crlf ++ bs "X:");
+    ev 1 true false false 4294967001 (bs "GET / HTTP/1.1" ++ crlf);
+    ev 1 false false false 5001 (bs "HTTP/1.1 200 OK" ++ crlf) ].
+Example C09_reordered_nonvacuous :
+  (forall e, In e reorder_trace -> e_seq e < two32) /\
+  spec_wf recog_req recog_resp reorder_trace = true /\
+  known recog_req recog_resp reorder_trace = false /\
+  known_strict recog_req recog_resp reorder_trace = true /\
+  spec_conn_count recog_req recog_resp reorder_trace <= 1 /\
+  map (fun o => match o with ONone => 0 | OReq _ => 1 | OResp _ => 2 end)
+      (outs recog_req recog_resp 1 (map wire reorder_trace)) = [0; 0; 0; 0; 0; 1; 2].
+Proof.
+  split; [|split; [vm_compute; reflexivity | split; [vm_compute; reflexivity | split; [vm_compute; reflexivity | split; [vm_compute; discriminate | vm_compute; reflexivity]]]]].
+  intros e H. cbn in H. repeat (destruct H as [<-|H]; [vm_compute; reflexivity|]). destruct H.
+Qed.
 
 (* at most once, and attributed to the sending direction: of the SPEC for every trace ... *)
 Theorem C09_spec_once :
@@ -108,7 +223,7 @@ Theorem C09_once :
     forall (cap : N) (tr : list event) (id : N),
       (forall e, In e tr -> e_seq e < two32) ->
       spec_wf parse_req parse_resp tr = true ->
-      known parse_req parse_resp tr = false ->
+      known_strict parse_req parse_resp tr = false ->
       spec_conn_count parse_req parse_resp tr <= cap ->
       (count_of is_req id tr (outs parse_req parse_resp cap (map wire tr)) <= 1)%nat /\
       (count_of is_resp id tr (outs parse_req parse_resp cap (map wire tr)) <= 1)%nat /\
@@ -126,7 +241,7 @@ Check C09_once :
     forall (cap : N) (tr : list event) (id : N),
       (forall e, In e tr -> e_seq e < two32) ->
       spec_wf parse_req parse_resp tr = true ->
-      known parse_req parse_resp tr = false ->
+      known_strict parse_req parse_resp tr = false ->
       spec_conn_count parse_req parse_resp tr <= cap ->
       (count_of is_req id tr (outs parse_req parse_resp cap (map wire tr)) <= 1)%nat /\
       (count_of is_resp id tr (outs parse_req parse_resp cap (map wire tr)) <= 1)%nat /\
@@ -177,7 +292,7 @@ Definition ex_trace : list event :=
 Example C09_inorder_nonvacuous :
   (forall e, In e ex_trace -> e_seq e < two32) /\
   spec_wf recog_req recog_resp ex_trace = true /\
-  known recog_req recog_resp ex_trace = false /\
+  known_strict recog_req recog_resp ex_trace = false /\
   spec_conn_count recog_req recog_resp ex_trace <= 2 /\
   map (fun o => match o with ONone => 0 | OReq _ => 1 | OResp _ => 2 end)
       (outs recog_req recog_resp 2 (map wire ex_trace)) = [0; 0; 0; 0; 0; 1; 1; 2; 2].
